@@ -32,6 +32,7 @@ import (
 	psql "github.com/transparency-dev/witness/internal/persistence/sql"
 	"github.com/transparency-dev/witness/internal/witness"
 	"github.com/transparency-dev/witness/monitoring"
+	prom "github.com/transparency-dev/witness/monitoring/prometheus"
 	"golang.org/x/mod/sumdb/note"
 	"google.golang.org/grpc/codes"
 	"google.golang.org/grpc/status"
@@ -414,7 +415,14 @@ func (f *recFactory) NewCounter(name, help string, labelNames ...string) monitor
 
 var metrics = &recFactory{counters: map[string]*recCounter{}}
 
-func init() { monitoring.SetMetricFactory(metrics) }
+func init() {
+	// the production binary counts with Prometheus; a child process of the harness may ask for that factory
+	if os.Getenv("VERIF_METRICS") == "prom" {
+		monitoring.SetMetricFactory(prom.MetricFactory{Prefix: "verif_"})
+		return
+	}
+	monitoring.SetMetricFactory(metrics)
+}
 
 var witnessCounterNames = []string{"witness_update_request", "witness_update_success", "witness_update_invalid_consistency", "witness_update_inconsistent_checkpoints"}
 
